@@ -228,7 +228,7 @@ def run(ctx):
     dist["big_roundtrips(impl only)"] = len(big) * len(profiles)
     ctx.cov["rule"] = ("encode cases: seeded structured generator (0x00/0xFF runs across varint boundaries 31/32/33, lengths 0..5000, "
                        "varying/empty inputs) + exhaustive {00,ff,01}^<=3 pairs; decode cases: every encoded payload (round trip), "
-                       "corpus of F1 witnesses, seeded mutations of real payloads, structured token sequences whose claimed run lengths sit at the arithmetic and size limits (sums around 2^64 and MAX_DECODED_LEN), and ALL byte strings of length <= %d; "
+                       "corpus of F1 witnesses, seeded mutations of real payloads, structured token sequences whose claimed run lengths sit at the arithmetic and size limits (sums around 2^64 and MAX_DECODED_LEN), and ALL byte strings of length <= %d (implementation: all of them; model: all of length <= 2, every 251st of length 3); "
                        "non-trivial = distinct payloads that decode to >=1 input or are rejected with an error" % maxlen)
     ctx.cov["exhaustive"] = False
     ctx.assumptions += ["usize is 64 bit", "bitfield-rle 0.2.1 / varinteger 1.0.6 as vendored in the cargo registry (modelled line by line, correspondence-checked)",
